@@ -321,19 +321,28 @@ def neg(c):
 
 
 # ----------------------------------------------------------------------------------------------- outcomes
+class SpecRaise(Exception):
+    """A modelled Python exception raised unconditionally while evaluating an expression (concrete KeyError of a folded
+    dict, callee that always raises ...); converted to a Raise outcome at statement level."""
+
+    def __init__(self, name, node=None):
+        Exception.__init__(self, name)
+        self.name, self.node = name, node
+
+
 class Fall(object):
     def __init__(self, env):
         self.env = env
 
 
 class Ret(object):
-    def __init__(self, value):
-        self.value = value
+    def __init__(self, value, env=None):
+        self.value, self.env = value, env
 
 
 class Raise(object):
-    def __init__(self, exc, node=None):
-        self.exc, self.node = exc, node
+    def __init__(self, exc, node=None, env=None):
+        self.exc, self.node, self.env = exc, node, env
 
 
 class Brk(object):
@@ -512,32 +521,44 @@ class Spec(object):
 
     def ev_BoolOp(self, e, env, g):
         is_and = isinstance(e.op, ast.And)
-        pending = []
-        last = True if is_and else False
-        for x in e.values:
-            # short circuit: later operands are evaluated under the assumption the earlier ones did not decide
-            v = self.ev(x, env, g)
-            if is_sym(v):
-                pending.append(v)
-                last = v
-                continue
-            if is_and and not self.truthy(v):
-                if not pending:
+        return self.boolop(is_and, list(e.values), env, g)
+
+    def boolop(self, is_and, values, env, g):
+        v = self.ev(values[0], env, g)
+        if len(values) == 1:
+            return v
+        t = self.truth_of(v)
+        if t is None:
+            # symbolic: later operands are evaluated under the assumption that this one did not decide
+            self.guards.append(v if is_and else neg(v))
+            try:
+                rest = self.boolop(is_and, values[1:], env, g)
+            finally:
+                self.guards.pop()
+            if is_and:
+                if rest is True:
                     return v
-                return False
-            if (not is_and) and self.truthy(v):
-                if not pending:
-                    return v
-                return Op("or*", *(pending + [v]))
-            last = v
-        if pending:
-            if len(pending) == 1 and (last is pending[0]):
-                return pending[0]
-            if len(pending) == 1:
-                # e.g.  sym and const  -> value is const when sym truthy
-                return Op("and*" if is_and else "or*", pending[0], last)
-            return Op("and*" if is_and else "or*", *pending)
-        return last
+                if rest is False:
+                    return False
+                return Guard(v, rest, v)
+            if rest is False:
+                return v
+            return Guard(v, v, rest)
+        if is_and:
+            return self.boolop(is_and, values[1:], env, g) if t else v
+        return v if t else self.boolop(is_and, values[1:], env, g)
+
+    def truth_of(self, v):
+        """True / False when the truthiness of v is known, else None."""
+        if isinstance(v, Guard):
+            ta = True if (v.a is v.cond or repr(v.a) == repr(v.cond)) else self.truth_of(v.a)
+            tb = False if (v.b is v.cond or repr(v.b) == repr(v.cond)) else self.truth_of(v.b)
+            if ta is not None and ta == tb:
+                return ta
+            return None
+        if is_sym(v):
+            return None
+        return self.truthy(v)
 
     CMP = {ast.Eq: lambda a, b: a == b, ast.NotEq: lambda a, b: a != b, ast.Lt: lambda a, b: a < b,
            ast.LtE: lambda a, b: a <= b, ast.Gt: lambda a, b: a > b, ast.GtE: lambda a, b: a >= b,
@@ -602,6 +623,9 @@ class Spec(object):
 
     def ev_IfExp(self, e, env, g):
         c = self.ev(e.test, env, g)
+        tc = self.truth_of(c)
+        if tc is not None:
+            return self.ev(e.body if tc else e.orelse, env, g)
         if is_sym(c):
             if isinstance(c, Top):
                 return Top("ifexp")
@@ -633,6 +657,9 @@ class Spec(object):
             return phi(v.cond, self.index(v.a, i), self.index(v.b, i))
         if is_sym(v) or is_sym(i):
             if isinstance(v, Sym) and v.kind == "bytes":
+                n = v.info.get("n") if v.info else None
+                if isinstance(i, int) and not isinstance(i, bool) and i < 0 and isinstance(n, int):
+                    i = i + n
                 return self.assumed(Op("byte", v, i))
             if isinstance(v, Op) and v.op == "slice" and isinstance(v.args[0], Sym) and v.args[0].kind == "bytes":
                 return self.assumed(Op("byte", v, i))
@@ -643,6 +670,8 @@ class Spec(object):
             return Top("subscript of %r" % (v,))
         try:
             return v[i]
+        except (KeyError, IndexError, TypeError) as ex:
+            raise SpecRaise(type(ex).__name__)
         except Exception as ex:
             return Top("subscript %s" % type(ex).__name__)
 
@@ -987,9 +1016,11 @@ class Spec(object):
         if callable(f):
             try:
                 r = f(*args, **kw)
+            except FoldError:
+                raise
             except Exception as ex:
                 self.effect("raises", name, type(ex).__name__, node=node)
-                return Top("call-exc %s" % type(ex).__name__)
+                raise SpecRaise(type(ex).__name__, node)
             if type(r).__name__ in ("generator", "map", "filter", "zip", "enumerate", "reversed") :
                 try:
                     r = list(r)
@@ -1009,7 +1040,7 @@ class Spec(object):
                 return struct.unpack(fmt, data)
             except struct.error:
                 self.effect("raises", "unpack", "struct.error", node=node)
-                return Top("struct.error")
+                raise SpecRaise("error", node)
         try:
             size = struct.calcsize(fmt)
             nf = len(struct.unpack(fmt, bytes(size)))
@@ -1084,19 +1115,22 @@ class Spec(object):
             self.callstack.pop()
         return self.outcome_value(out)
 
-    def outcome_value(self, out):
+    def outcome_value(self, out, top=True):
         if isinstance(out, Ret):
             return out.value
         if isinstance(out, Fall):
             return None
         if isinstance(out, Raise):
+            if top:
+                name = out.exc.args[0] if isinstance(out.exc, Op) and out.exc.args else "Exception"
+                raise SpecRaise(name, out.node)
             self.effect("raise", out.exc, node=out.node)
             return Top("raises %s" % show(out.exc))
         if isinstance(out, Split):
             self.guards.append(out.cond)
-            a = self.outcome_value(out.a)
+            a = self.outcome_value(out.a, False)
             self.guards[-1] = neg(out.cond)
-            b = self.outcome_value(out.b)
+            b = self.outcome_value(out.b, False)
             self.guards.pop()
             if isinstance(a, Top) and a.why.startswith("raises"):
                 return b
@@ -1187,6 +1221,12 @@ class Spec(object):
             self.assign(t.value, Top("starred"), env, g)
 
     def stmt(self, s, env, g):
+        try:
+            return self.stmt_(s, env, g)
+        except SpecRaise as ex:
+            return Raise(Op("exc", ex.name), ex.node or s, env)
+
+    def stmt_(self, s, env, g):
         self.steps += 1
         if self.steps > self.max_steps:
             raise FoldError("specialiser step bound")
@@ -1220,7 +1260,7 @@ class Spec(object):
         if t is ast.Return:
             v = self.ev(s.value, env, g) if s.value else None
             self.returns_seen.append((tuple(self.guards), v, s.lineno))
-            return Ret(v)
+            return Ret(v, env)
         if t in (ast.Pass, ast.Global, ast.Nonlocal):
             if t is ast.Global:
                 env.setdefault("__globals__", set()).update(s.names)
@@ -1228,7 +1268,7 @@ class Spec(object):
         if t is ast.Assert:
             c = self.ev(s.test, env, g)
             if not is_sym(c) and not self.truthy(c):
-                return Raise(Op("AssertionError", ast.unparse(s.test)[:60]), s)
+                return Raise(Op("exc", "AssertionError"), s, env)
             return Fall(env)
         if t in (ast.Import, ast.ImportFrom):
             try:
@@ -1262,7 +1302,7 @@ class Spec(object):
                     exc = Op("exc", getattr(v, "__name__", None) or show(v))
             else:
                 exc = Op("exc", "reraise")
-            return Raise(exc, s)
+            return Raise(exc, s, env)
         if t in (ast.FunctionDef, ast.AsyncFunctionDef):
             f = FuncRef(env.get("__qualname__", "?") + "." + s.name, s, self.cur_module(g), closure=env)
             f.defaults = [self.ev(d, env, g) for d in s.args.defaults]
@@ -1291,8 +1331,9 @@ class Spec(object):
 
     def stmt_if(self, s, env, g):
         c = self.ev(s.test, env, g)
-        if not is_sym(c):
-            return self.block(s.body if self.truthy(c) else s.orelse, env, g)
+        tc = self.truth_of(c)
+        if tc is not None:
+            return self.block(s.body if tc else s.orelse, env, g)
         if isinstance(c, Top):
             self.effect("top-branch", ast.unparse(s.test)[:80], c.why, node=s)
         self.guards.append(c)
@@ -1494,7 +1535,7 @@ class Spec(object):
             name = out.exc.args[0] if isinstance(out.exc, Op) and out.exc.args else None
             for h in s.handlers:
                 if self.handler_catches(h, name, env, g):
-                    henv = dict(env)
+                    henv = dict(out.env if out.env is not None else env)
                     if h.name:
                         henv[h.name] = Sym("exc:%s" % name, "obj!")
                     return self.block(h.body, henv, g)
